@@ -38,7 +38,7 @@ func init() {
 			"" +
 			"Further relation classes: distinct points on a common line of slope ±1, ±2, ±1/2 through P (equal x+y, x-y, ... : what a folded comparison cannot tell apart); both operands scaled by factors whose stored form equals the stored form of 1 in three limbs (what a limb-dropping 'z == 1' fast path confuses with affine). " +
 			"History cases: operand A is an object that held another value, was compared, and was then driven to its value through each mutator of the API. " +
-			"non-trivial = operands in different representations or different values; distinct by the whole case. Plus concurrent batches: 8 goroutines run the operations simultaneously on objects they own, each result judged against the oracle.",
+			"Operands are also made by the library itself: the constructors (NewElement, Identity, Base), [k]P and [k]O for every notable scalar, sums / differences / doubles / negations of operands in every structured representation, a raw X or Y steered onto structured stored values with the library's Negate applied first, a Z in a single stored limb with a cross product steered to a small stored value. non-trivial = operands in different representations or different values; distinct by the whole case. Plus concurrent batches: 8 goroutines run the operations simultaneously on objects they own, each result judged against the oracle.",
 		NewCase:  func() any { return &c05Case{} },
 		Generate: c05Generate,
 		Run:      c05Run,
